@@ -95,11 +95,14 @@ def case_array(case):
             r.true("Zinn-Harvey: monotone in |z - mean|", bool(np.all(np.diff(sign * upper) > 0)), conn=conn, **extra)
     elif fn == "force_moments":
         rng = np.random.RandomState(case.get("seed", 0))
-        for arr in (x[::50], rng.lognormal(size=37), np.array([1.0, 2.0, 4.0, 8.0]), rng.normal(5.0, 0.1, size=(6, 5))):
+        # (also inputs whose offset is large against their spread: the moments of the input must be computed stably)
+        for arr in (x[::50], rng.lognormal(size=37), np.array([1.0, 2.0, 4.0, 8.0]), rng.normal(5.0, 0.1, size=(6, 5)), 1e5 + 0.01 * x[::50], -3e6 + np.array([0.0, 1e-3, 3e-3, 4e-3, 9e-3])):
             for m2, v2 in [(0.0, 1.0), (mu, var), (10.0, 0.01)]:
                 y = tf.array_force_moments(arr, mean=m2, var=v2)
-                r.close("force-moments: sample mean exactly as requested", np.mean(y), m2, rtol=1e-10, atol=1e-10 * math.sqrt(v2), **extra)
-                r.close("force-moments: sample variance exactly as requested", np.var(y), v2, rtol=1e-10, **extra)
+                off = abs(float(np.mean(arr))) / float(np.std(arr))  # conditioning of the standardisation
+                rt = max(1e-10, 1e2 * np.finfo(float).eps * off)
+                r.close("force-moments: sample mean exactly as requested", np.mean(y), m2, rtol=rt, atol=rt * math.sqrt(v2), **extra)
+                r.close("force-moments: sample variance exactly as requested", np.var(y), v2, rtol=rt, **extra)
                 r.true("force-moments: order of the values preserved", bool(np.array_equal(np.argsort(np.ravel(y), kind="stable"), np.argsort(np.ravel(arr), kind="stable"))), **extra)
     elif fn == "boxcox":
         for lam in (-1.0, -0.5, 0.0, 0.5, 1.0, 2.0):
@@ -257,7 +260,7 @@ def run(chk):
             dc.append({"mode": "explicit", "values": vals, "thresholds": [float(round(t)) for t in th] if len(set(round(t) for t in th)) == len(th) else th, "mu": mu, "var": var})
     chk.run("discrete", case_discrete, dc, rule="discrete transform with 2-5 classes x thresholds {arithmetic, equal, explicit (incl. integers)} x (mu, sigma^2): inputs are the probability grid plus every threshold, its two floating-point neighbours and +-1e-9: output set and partition at the thresholds, equal-probability classes")
     wc = []
-    methods = [("normal_to_lognormal", {}), ("normal_to_uniform", {"low": -2.0, "high": 6.0}), ("normal_to_uniform", {}), ("normal_to_arcsin", {}), ("normal_to_arcsin", {"a": -1.0, "b": 4.0}), ("normal_to_uquad", {}), ("zinnharvey", {"conn": "low"}), ("zinnharvey", {}), ("normal_force_moments", {}), ("boxcox", {"lmbda": 0.5, "shift": 3.0}), ("binary", {}), ("binary", {"divide": 0}), ("binary", {"divide": 0.0, "upper": 0, "lower": -1}), ("binary", {"divide": 1.3, "upper": 5.0, "lower": 0.0}), ("normal_to_uquad", {"a": -4.0}), ("normal_to_uquad", {"b": 7.5}), ("normal_to_arcsin", {"a": -4.0}), ("normal_to_arcsin", {"b": 7.5}), ("normal_to_uniform", {"low": 0, "high": 3}), ("discrete", {"values": [0.0, 1.0, 2.0]}), ("discrete", {"values": [0.0, 1.0, 2.0], "thresholds": "equal"})]
+    methods = [("normal_to_lognormal", {}), ("normal_to_uniform", {"low": -2.0, "high": 6.0}), ("normal_to_uniform", {}), ("normal_to_arcsin", {}), ("normal_to_arcsin", {"a": -1.0, "b": 4.0}), ("normal_to_uquad", {}), ("zinnharvey", {"conn": "low"}), ("zinnharvey", {}), ("normal_force_moments", {}), ("boxcox", {"lmbda": 0.5, "shift": 3.0}), ("binary", {}), ("binary", {"divide": 0}), ("binary", {"divide": 0.0, "upper": 0, "lower": -1}), ("binary", {"divide": 1.3, "upper": 5.0, "lower": 0.0}), ("normal_to_uquad", {"a": -4.0}), ("normal_to_uquad", {"b": 7.5}), ("normal_to_arcsin", {"a": -4.0}), ("normal_to_arcsin", {"b": 7.5}), ("normal_to_uniform", {"low": 0, "high": 3}), ("discrete", {"values": [0.0, 1.0, 2.0]}), ("discrete", {"values": [2.0, -1.0, 0.5], "thresholds": [0.2, 1.4]}), ("discrete", {"values": [0.0, 1.0, 0.0], "thresholds": "equal"}), ("discrete", {"values": [3.0, 1.0, 2.0], "thresholds": "equal"}), ("discrete", {"values": [0.0, 1.0, 2.0], "thresholds": "equal"})]
     for (method, kw), (mu, var), process, keep_mean, (src, dst), tk, nk in itertools.product(methods, MOMENTS[1:] if tier == "quick" else MOMENTS, (False, True), (True, False), (("field", True), ("field", "out"), ("f2", "out"), ("field", False)), ("none", "call"), ("none", "yj")):
         if not process and not keep_mean and method in ("normal_to_lognormal", "boxcox"):
             pass
